@@ -121,7 +121,7 @@ def _parms(d):
                          bytes(v) if isinstance(v, (bytes, bytearray)) else v) for k, v in d.items()))
 
 
-def drive(kind, fragments, close_at_end=False, maxmsgs=4, method="GET", close_first=False):
+def drive(kind, fragments, close_at_end=False, maxmsgs=4, method="GET", close_first=False, close_after=None):
     """feed fragments to a fresh Requestant / Respondent; returns (list of message snapshots, leftover bytes, exc)"""
     msg = bytearray()
     if kind == "req":
@@ -166,10 +166,16 @@ def drive(kind, fragments, close_at_end=False, maxmsgs=4, method="GET", close_fi
         if alive:
             alive = pump()
         fragments = ()
-    for frag in fragments:
+    for k, frag in enumerate(fragments):
         msg.extend(frag)
         if alive:
             alive = pump()
+        if close_after is not None and k == close_after and alive and exc is None:
+            # the connection is cut here; what follows arrives on a new connection parsed by the SAME parser object
+            # (http.Client reconnects and re-sends its request: Respondent.reinit + makeParser)
+            if p.parser is not None:
+                p.close()
+                alive = pump()
     if close_at_end and alive and exc is None and p.parser is not None:
         p.close()
         alive = pump()
